@@ -33,7 +33,7 @@ ASSUMPTIONS = [
 ]
 CASE_TIMEOUT = 60
 
-KINDS_A = ["fifo_random", "hb_stopping", "hb_promotion", "sync_hb", "median", "pbt", "fifo_grid", "hb_pasha"]
+KINDS_A = ["fifo_random", "hb_stopping", "hb_promotion", "sync_hb", "median", "pbt", "fifo_grid", "hb_pasha", "moasha"]
 
 
 def preload():
@@ -61,6 +61,7 @@ def floors(tier):
     return {"A:runs": 300 * k, "A:rows_compared": 8000 * k, "A:csv_cells_compared": 50000 * k, "A:runs_with_skipped_in_batch": 40 * k,
             "A:best_config_decided": 250 * k, "A:loaded_best_config_decided": 250 * k, "A:stats_trials_compared": 1500 * k,
             "A:resumed_with_changed_config": 30 * k, "A:trials_without_results": 20 * k,
+            "A:runs_aborted_by_failure_limit": 10 * k, "A:best_config_per_metric_decided:mode_differs_from_first_metric": 30 * k,
             "B:histories": 2000 * k, "B:histories_with_nan": 200 * k, "B:histories_with_ties": 100 * k, "B:stats_compared": 8000 * k,
             "B:best_decided": 1500 * k}
 
@@ -151,6 +152,18 @@ def expand_a(spec):
         if rng.random() < 0.25 and kind in ("fifo_random", "fifo_grid", "hb_stopping", "median"):  # others: C13-K2/K3, C05-K3
             p["plan"]["fail"] = {f"{rng.randint(0, 8)}:0": 0 for _ in range(rng.randint(1, 2))}  # trials without results
     p["results_update_interval"] = rng.choice([0.0, 0.001, 1e9])
+    if kind == "moasha":
+        # MOASHA's non-dominated sort is cubic in the number of trials at a rung
+        p["stop"] = {"max_num_trials_started": rng.randint(3, 20)}
+    if kind in ("fifo_random", "fifo_grid", "hb_stopping", "median") and rng.random() < 0.2:
+        # the run is aborted by the failure limit: what was delivered until then must still be stored
+        p["max_failures"] = rng.randint(0, 2)
+        plan = {f"{t}:0": rng.randint(0, 2) for t in range(rng.randint(0, 3), 40, rng.choice([1, 2, 3]))}
+        if spec["backend"] == "sim":
+            p["fail"] = plan
+        else:
+            p["plan"]["fail"] = plan
+        p["abort_by_failures"] = True
     p.update({k: v for k, v in spec.items() if k not in ("seed", "kind", "backend", "part") and not k.startswith("_")})
     return p, spec
 
@@ -167,7 +180,10 @@ def run_part_a(spec, o):
 
     def extra_fn(t, l, rn):
         v = rr.choice([0.5, 1.5, float("nan"), float("inf"), float("-inf"), 2, -3, 0.1 * t + l])
-        return {"aux_s": rr.choice(["a", "b", "{x}", "na"]), "m2": v}
+        d = {"aux_s": rr.choice(["a", "b", "{x}", "na"]), "m2": v}
+        if kind == "moasha":
+            d["loss2"] = ((t * 31 + l * 17) % 101) / 101.0
+        return d
 
     if sim:
         r = simrun.SimRun(p, spec["seed"])
@@ -175,12 +191,18 @@ def run_part_a(spec, o):
         r = simrun.ProcRun(p, spec["seed"], extra_fn=extra_fn)
     r.run()
     if r.exc is not None:
-        if type(r.exc).__name__ == "LoopBoundExceeded":
-            o.inconclusive("loop_bound")
+        n_err = sum(1 for e in r.rec.events if e[1] == "s.on_trial_error.call")
+        if (p.get("abort_by_failures") and type(r.exc).__name__ == "ValueError" and "Trial - " in repr(r.exc)
+                and n_err > p["max_failures"]):
+            # documented ending: more than max_failures trials failed; everything below applies unchanged
+            o.count("A:runs_aborted_by_failure_limit")
         else:
-            o.violate("run_completes", f"A:tuner_run_raised:{type(r.exc).__name__}", {"error": repr(r.exc)[:300], "kind": kind})
-        _cleanup(r)
-        return
+            if type(r.exc).__name__ == "LoopBoundExceeded":
+                o.inconclusive("loop_bound")
+            else:
+                o.violate("run_completes", f"A:tuner_run_raised:{type(r.exc).__name__}", {"error": repr(r.exc)[:300], "kind": kind})
+            _cleanup(r)
+            return
     rows = list(r.results()) if sim else list(r.store_cb.results)
     events = r.rec.events
     mode = p["mode"]
@@ -343,6 +365,35 @@ def run_part_a(spec, o):
                         o.violate("best_configuration", f"A:loaded_best_config_does_not_attain_table_optimum:{mode}", {"got": bcfg.get("loss"), "optimum": topt})
         except Exception as e:  # noqa: BLE001
             o.violate("best_configuration", f"A:load_experiment_best_config_raised:{type(e).__name__}", {"error": repr(e)[:300]})
+    # ---- several objectives: the best configuration per metric, by index and by name, each with its own mode
+    try:
+        names, modes = r.scheduler.metric_names(), r.scheduler.metric_mode()
+    except Exception:  # noqa: BLE001
+        names, modes = [], None
+    if isinstance(modes, list) and len(names) > 1:
+        import contextlib
+        import io
+
+        for mi, (name, md) in enumerate(zip(names, modes)):
+            vv = [(t, res[name]) for t, res in handed_all if name in res and _isnum(res[name]) and not _isnan(float(res[name]))]
+            if not vv:
+                continue
+            optm = min(v for _, v in vv) if md == "min" else max(v for _, v in vv)
+            bestm = {t for t, v in vv if v == optm}
+            for arg in (mi, name):
+                try:
+                    with contextlib.redirect_stdout(io.StringIO()):
+                        bt, bc = r.tuner.best_config(metric=arg)
+                    o.count("A:best_config_per_metric_decided")
+                    if md != modes[0]:
+                        o.count("A:best_config_per_metric_decided:mode_differs_from_first_metric")
+                    if bt not in bestm:
+                        o.violate("best_configuration", f"A:tuner_best_config_for_metric_{mi}_is_not_optimal:{md}:first_metric_{modes[0]}",
+                                  {"metric": name, "arg": arg, "got": bt, "optimal": sorted(bestm), "optimum": optm})
+                        break
+                except Exception as e:  # noqa: BLE001
+                    o.violate("best_configuration", f"A:tuner_best_config_raised:{type(e).__name__}", {"error": repr(e)[:300], "metric": arg})
+                    break
     n_nan = sum(1 for t, res in handed_all for v in res.values() if _isnum(v) and _isnan(float(v)))
     o.set_sig(("A", kind, spec["backend"], len(rows), len(started), skipped_in_batch, n_nan > 0), nontrivial=len(rows) >= 3)
     o.sample = {"part": "A", "kind": kind, "backend": spec["backend"], "rows": len(rows), "handed": n_handed, "trials": len(started),
